@@ -86,6 +86,16 @@ struct c20_session : public vsim_session {
         o << "COMMAND " << names[i] << " " << cvscript_command_n_args_min(names[i]) << " "
           << cvscript_command_n_args_max(names[i]) << "\n";
       }
+      // the same entry points for a name that is not a command: NULL / -1 and an error, no crash
+      {
+        char const *bad = "cv_nosuchcommand";
+        cvm::clear_error();
+        bool const h = cvscript_command_help(bad) == NULL, rh = cvscript_command_rethelp(bad) == NULL, ah = cvscript_command_arghelp(bad, 0) == NULL,
+          fh = cvscript_command_full_help(bad) == NULL;
+        int const mn = cvscript_command_n_args_min(bad), mx = cvscript_command_n_args_max(bad);
+        o << "UNKNOWNCMD null=" << (h && rh && ah && fh ? 1 : 0) << " min=" << mn << " max=" << mx << " error=" << (cvm::get_error() != COLVARS_OK ? 1 : 0) << "\n";
+        cvm::clear_error();
+      }
       // the documentation entry points of colvarscript_commands.cpp ('\x1f' between fields, '\x1e' for a newline)
       for (int i = 0; i < n; i++) {
         std::string t = std::string(cvscript_command_help(names[i])) + "\x1f" + cvscript_command_rethelp(names[i]) + "\x1f" +
